@@ -53,7 +53,7 @@ Proof.
   unfold small_number. cbn [length Nat.ltb Nat.leb canonical_int].
   destruct (x =? 0) eqn:Z; cbn [negb orb]; [reflexivity|].
   destruct (128 <=? x) eqn:L; [reflexivity|].
-  unfold be_value; cbn [be_acc]. replace (0 * 256 + x) with x by lia.
+  unfold be_value; cbn [be_acc]. replace (256 * 0 + x) with x by lia.
   destruct (x <? 67108864) eqn:B; [reflexivity|lia].
 Qed.
 
@@ -138,7 +138,7 @@ Proof.
   - cbn. discriminate.
   - cbn [length Nat.ltb Nat.leb canonical_int].
     destruct (negb (x =? 0)); [|discriminate]. destruct (128 <=? x); [discriminate|].
-    unfold be_value; cbn [be_acc]. replace (0 * 256 + x) with x by lia.
+    unfold be_value; cbn [be_acc]. replace (256 * 0 + x) with x by lia.
     destruct (x <? 67108864); [|discriminate]. intros H. apply N.eqb_eq in H. subst. reflexivity.
   - destruct (_ <? _)%nat; [discriminate|]. destruct (canonical_int _) eqn:C; [|discriminate].
     destruct (128 <=? x) eqn:L; [discriminate|]. destruct (_ <? 67108864); [|discriminate].
@@ -146,8 +146,8 @@ Proof.
     (* a canonical encoding with two or more bytes has value >= 128 *)
     exfalso. cbn [canonical_int] in C. unfold be_value in H. cbn [be_acc] in H.
     assert (G : forall l acc, acc <= be_acc acc l).
-    { induction l as [|z l IH]; intros acc; cbn [be_acc]; [lia|]. specialize (IH (acc * 256 + z)). lia. }
-    specialize (G r ((0 * 256 + x) * 256 + y)).
+    { induction l as [|z l IH]; intros acc; cbn [be_acc]; [lia|]. specialize (IH (256 * acc + z)). lia. }
+    specialize (G r (256 * (256 * 0 + x) + y)).
     destruct (x =? 0) eqn:Z; cbn [andb orb negb] in C.
     + destruct (y <? 128) eqn:Y; [discriminate|]. lia.
     + lia.
